@@ -58,6 +58,15 @@ func (fc *fnCtx) runAnchors(st *state, kind string, match func(arg string) bool,
 		}
 		fc.anchorsHit[c]++
 		ev := &evalCtx{cur: st, old: fc.entry, bind: bind}
+		if c.kind == "at-apply" {
+			// the statement of a lemma (proved on its own) instantiated with terms of the current state
+			g := fc.lemmaApply(c, ev)
+			if cond != "true" {
+				g = fmt.Sprintf("(=> %s %s)", cond, g)
+			}
+			fc.assume(st, g)
+			continue
+		}
 		t, okc := fc.evalOwn(c, ev, "at."+c.anchor)
 		if !okc {
 			continue
@@ -272,7 +281,9 @@ func (fc *fnCtx) execCall(st *state, ins ssa.Instruction, c *ssa.CallCommon, res
 		case *ssa.Function:
 			name = canonName(f)
 			if name == "sort.Slice" {
+				fc.anchorNamed(st, "call", "Slice", "sort.Slice", ins, bind, false)
 				fc.sortSlice(st, c, ins)
+				fc.anchorNamed(st, "call", "Slice", "sort.Slice", ins, bind, true)
 				return
 			}
 			blk = fc.e.db.funcs[name]
@@ -745,7 +756,93 @@ func (fc *fnCtx) sortSlice(st *state, c *ssa.CallCommon, ins ssa.Instruction) {
 	fc.assume(st, fmt.Sprintf("(forall ((q!j Int)) (! (=> (and (<= 0 q!j) (< q!j (slen %s))) (and (<= 0 (%s q!j)) (< (%s q!j) (slen %s)) (= (select (sarr %s) (%s q!j)) (select (sarr %s) q!j)) (= (%s (%s q!j)) q!j))) :pattern ((select (sarr %s) q!j))))",
 		r.T, pinv, pinv, r.T, r.T, pinv, old.T, pi, pinv, old.T))
 	fc.store(st, target, r)
-	fc.trusted["sort.Slice: the slice variable is rebound to a permutation of its old value (order not modelled)"] = true
+	fc.trusted["sort.Slice: the slice variable is rebound to a permutation of its old value"] = true
+	fc.sortedByLess(st, c, ins, r)
+}
+
+// sortedByLess: when the less function is a closure of /repo under contract, sort.Slice is
+// further assumed to leave the slice sorted by it: for all positions p < q, less(q, p) is false,
+// where "less(q, p) is false" is the closure's own postcondition with result := false (the
+// closure is verified against that postcondition).  The closure's preconditions become an
+// obligation of the call, for all pairs of positions.
+func (fc *fnCtx) sortedByLess(st *state, c *ssa.CallCommon, ins ssa.Instruction, r Val) {
+	lv, ok := fc.env[c.Args[1]].(Val)
+	if !ok {
+		return
+	}
+	info := fc.closures[lv.T]
+	if info == nil {
+		return
+	}
+	blk := fc.e.db.funcs[canonName(info.fn)]
+	if blk == nil || blk.kind != "func" || len(info.fn.Params) != 2 || len(blk.modifies) > 0 {
+		return
+	}
+	blk.used = true
+	for _, th := range blk.theories {
+		fc.theories[th] = true
+	}
+	intT := types.Typ[types.Int]
+	mk := func(iT, jT string) map[string]Val {
+		bind := map[string]Val{
+			info.fn.Params[0].Name(): {T: iT, S: "Int", Ty: intT},
+			info.fn.Params[1].Name(): {T: jT, S: "Int", Ty: intT},
+			"result":                  {T: "false", S: "Bool"},
+			"result0":                 {T: "false", S: "Bool"},
+		}
+		for k, fv := range info.fn.FreeVars {
+			if k >= len(info.bindings) {
+				continue
+			}
+			pt, isPtr := fv.Type().(*types.Pointer)
+			if !isPtr {
+				continue
+			}
+			switch b := info.bindings[k].(type) {
+			case *Addr:
+				v := fc.load(st, b)
+				v.Ty = pt.Elem()
+				bind[fv.Name()] = v
+			case Val:
+				v := fc.load(st, fc.pointerAddr(b, pt.Elem()))
+				v.Ty = pt.Elem()
+				bind[fv.Name()] = v
+			}
+		}
+		return bind
+	}
+	quant := func(clauses []*clause, iT, jT string) (out []string, okAll bool) {
+		okAll = true
+		n0 := len(fc.assumes)
+		fc.noDef = true
+		defer func() {
+			fc.noDef = false
+			fc.assumes = fc.assumes[:n0] // facts produced while evaluating under the quantifier are dropped
+			if rec := recover(); rec != nil {
+				if _, isU := rec.(unsupported); isU {
+					okAll = false
+					return
+				}
+				panic(rec)
+			}
+		}()
+		ev := &evalCtx{cur: st, old: st, bind: mk(iT, jT)}
+		for _, cl := range clauses {
+			out = append(out, fc.evalFormula(cl.f, ev))
+		}
+		return out, true
+	}
+	rng := fmt.Sprintf("(and (<= 0 q!sp) (< q!sp (slen %s)) (<= 0 q!sq) (< q!sq (slen %s)))", r.T, r.T)
+	if reqs, ok := quant(blk.byKind("requires"), "q!sp", "q!sq"); ok && len(reqs) > 0 {
+		fc.assert(st, "requires", fmt.Sprintf("call.sort.Slice/less-function-requires#%d", fc.site("sortless")),
+			fmt.Sprintf("(forall ((q!sp Int) (q!sq Int)) (=> %s (and %s)))", rng, strings.Join(reqs, " ")),
+			"the preconditions of the less function hold for every pair of positions sort.Slice may compare", ins.Pos())
+	}
+	// less(q, p) is false for p < q: the first parameter is the later position
+	if ens, ok := quant(blk.byKind("ensures"), "q!sq", "q!sp"); ok && len(ens) > 0 {
+		fc.assume(st, fmt.Sprintf("(forall ((q!sp Int) (q!sq Int)) (=> (and (<= 0 q!sp) (< q!sp q!sq) (< q!sq (slen %s))) (and %s)))", r.T, strings.Join(ens, " ")))
+		fc.trusted["sort.Slice leaves the slice sorted by its less function (the less function's own contract, instantiated with result = false for every later/earlier pair)"] = true
+	}
 }
 
 // foreignSlice: does the slice value come from outside the function (parameter, field, element,
